@@ -493,6 +493,13 @@ class Fn:
                         ids.add(dd["d"])
         return ids
 
+    def zero_node(self):
+        """a synthetic literal 0 (for places where the source has no node for an implicit zero, e.g. array decay = index 0)"""
+        if "_zero" not in self.__dict__:
+            self.nodes.append({"k": "IntegerLiteral", "c": [], "v": 0, "cv": 0, "t": "int", "i": len(self.nodes), "synthetic": True})
+            self._zero = len(self.nodes) - 1
+        return self._zero
+
     def alias_root(self, d):
         """plumbing left behind by lib/inline.py is transparent: a `__ret_H` variable that is assigned exactly once from a
         local, and a local initialised from such a variable, are the same variable as far as the rules are concerned"""
@@ -727,6 +734,7 @@ def program(config="REL", repo=None):
         inlined = []
         if not os.environ.get("MIVERIF_NO_INLINE"):
             import inline
+            renamed = inline.resolve_renames(d, config, repo or REPO)
             inlined = inline.apply(d)
             if inlined:
                 gone = {h for _, h in inlined}
@@ -734,4 +742,10 @@ def program(config="REL", repo=None):
                 d["functions"] = [fd for fd in d["functions"] if fd["name"] not in gone or fd["name"] in still]
         _programs[key] = Program(d, config)
         _programs[key].inlined = inlined
+        _programs[key].renamed = renamed if not os.environ.get("MIVERIF_NO_INLINE") else []
+        if not os.environ.get("MIVERIF_NO_INLINE"):
+            import inline
+            _programs[key].drift = inline.drift(d, config)
+        else:
+            _programs[key].drift = {}
     return _programs[key]
